@@ -140,12 +140,13 @@ PROPS = {
         "assumptions": ["that each arm's right-hand side is the right AxCut statement (e.g. producer-first vs consumer-first) is not decided"],
     },
     "C19": {
-        "rules": [sharing.rule_share],
+        "rules": [sharing.rule_share, sharing.rule_once],
         "text": "Sharing discipline decided by symbolic execution of the translation functions' MIR over lazily refined shapes (finite "
                 "variant sets, no solver): a consumer or statement that reaches two or more consuming uses is the result of "
                 "share()/lift(), or is pinned to a size-bounded shape, or is iterated at most once. All fun2core functions with a "
                 "consumer parameter and all core2axcut functions with a statement parameter are covered, so a new duplicating site "
-                "is found, not only the three known ones.",
+                "is found, not only the three known ones. Inside lift() itself the shared statement (or a clone of it) is translated "
+                "once per path (R-ONCE): a second, throw-away translation repeats every nested lift.",
         "assumptions": ["the degree of the polynomial is not decided; growth from other sources than duplicated continuations was not found by reading"],
     },
     "C02": {
@@ -212,12 +213,13 @@ PROPS = {
                         "stack overflow and allocation failure are outside the property ('within stack limits')"],
     },
     "C17": {
-        "rules": [determinism.rule_hash, determinism.rule_static, determinism.rule_ambient],
-        "text": "Static decision of the three ways the pipeline could become non-deterministic: (R-HASH) every iteration over a "
+        "rules": [determinism.rule_hash, determinism.rule_static, determinism.rule_ambient, determinism.rule_trunc],
+        "text": "Static decision of the ways the pipeline could become non-deterministic: (R-HASH) every iteration over a "
                 "std hash collection in non-test workspace code ends in an order-insensitive sink; (R-STATIC) the only global "
                 "mutable state is the label counter, touched only by fresh_label and used only as label text; (R-AMBIENT) no "
-                "ambient source (env, time, ids, RandomState, addresses) is called from the pipeline crates. Decided on the "
-                "resolved MIR of every body of the workspace.",
+                "ambient source (env, time, ids, RandomState, addresses) is called from the pipeline crates; (R-TRUNC) every artefact is written into an empty file (File::create, or "
+                "OpenOptions with truncate / append / create_new), so the bytes on disk do not depend on what an earlier compilation "
+                "left under the same name. Decided on the resolved MIR of every body of the workspace.",
         "assumptions": ["third-party crates (pretty, lalrpop-util, miette) are deterministic",
                         "iteration order of Vec/BTreeMap/BTreeSet/VecDeque is a function of their contents"],
     },
